@@ -160,4 +160,126 @@ theorem C05_mismatch (P : Prims) (hP : P.Lawful) (pro s' S r R e E payload msg h
     · exact Or.inr (Or.inl ⟨hd, hk⟩)
   · exact Or.inr (Or.inr ⟨hk, pl, hdec2⟩)
 
+/-! ### non-vacuity -/
+
+/-- toy primitives whose DH returns the all-zero marker when the *public* input is all zero (a low-order point) -/
+def lowOrderPrims : Prims :=
+  { toyPrims with dh := fun a b => if b = zeros 32 then none else some (List.zipWith (· + ·) a b) }
+
+theorem lowOrder_dh_zero (a b : Bytes) (h : b = zeros 32) : lowOrderPrims.dh a b = none := by
+  simp [lowOrderPrims, h]
+
+/-- hypotheses of `C05_zero_dh` are satisfiable: recipient key is the low-order point … -/
+example : keyEncrypt lowOrderPrims (List.replicate 32 5) (List.replicate 32 5) (zeros 32) (List.replicate 32 2)
+    (List.replicate 32 2) (List.replicate 32 7) [[1], []] = ([], .other) :=
+  C05_zero_dh lowOrderPrims _ _ _ _ _ _ _ (Or.inl (by decide))
+/-- … while a regular recipient key does produce output -/
+example : (keyEncrypt lowOrderPrims (List.replicate 32 5) (List.replicate 32 5) (List.replicate 32 1) (List.replicate 32 2)
+    (List.replicate 32 2) (List.replicate 32 7) [[1], []]).2 = .ok := by decide
+
+/-- hypotheses of `C05_zero_dh_read` are satisfiable: a 128-byte message whose ephemeral key is the low-order point -/
+example : Noise.readMessage lowOrderPrims encPrologue (List.replicate 32 1) (List.replicate 32 1) (zeros 128) = .error .dh :=
+  C05_zero_dh_read lowOrderPrims _ _ _ (zeros 128) (by simp [zeros]) (by simp [zeros])
+    (lowOrder_dh_zero _ _ (by simp [zeros]))
+
+/-- hypotheses of `C05_zero_dh_decrypt` are satisfiable -/
+example : (keyDecrypt lowOrderPrims (List.replicate 32 1) (List.replicate 32 1) (encPrologue ++ zeros 200)).1 = [] ∧
+    (keyDecrypt lowOrderPrims (List.replicate 32 1) (List.replicate 32 1) (encPrologue ++ zeros 200)).2.1 ≠ .ok ∧
+    (keyDecrypt lowOrderPrims (List.replicate 32 1) (List.replicate 32 1) (encPrologue ++ zeros 200)).2.2 = none :=
+  C05_zero_dh_decrypt lowOrderPrims _ _ _
+    (lowOrder_dh_zero _ _ (by rw [List.drop_left' (by decide)]; simp [zeros]))
+
+/-- keyed toy primitives: the AEAD checks a tag derived from key *and* AD, so wrong keys / wrong AD are rejected -/
+def bindAead : Aead where
+  enc k _ ad p := p ++ ((k ++ zeros 8).take 8 ++ (ad ++ zeros 8).take 8)
+  dec k _ ad c := if c.length < 16 then none else
+    if c.drop (c.length - 16) = (k ++ zeros 8).take 8 ++ (ad ++ zeros 8).take 8 then some (c.take (c.length - 16)) else none
+
+theorem bindAead_lawful : bindAead.Lawful where
+  dec_enc := by
+    intro k n ad p _
+    have hl : ((k ++ zeros 8).take 8 ++ (ad ++ zeros 8).take 8).length = 16 := by simp [zeros]
+    simp only [bindAead]
+    generalize (k ++ zeros 8).take 8 ++ (ad ++ zeros 8).take 8 = tag at hl ⊢
+    have h1 : ¬ (p ++ tag).length < 16 := by simp [hl]
+    have h2 : (p ++ tag).length - 16 = p.length := by simp [hl]
+    rw [if_neg h1, h2]; simp
+  enc_length := by intro k n ad p _; simp [bindAead, zeros]
+  dec_sound := by
+    intro k n ad c p _ h
+    simp only [bindAead] at h ⊢
+    split at h
+    · simp at h
+    · split at h
+      · rename_i h16 hz
+        simp only [Option.some.injEq] at h
+        rw [← h, ← hz, List.take_append_drop]
+      · simp at h
+
+def bindPrims : Prims := { toyPrims with aead := bindAead }
+
+theorem bindPrims_lawful : bindPrims.Lawful where
+  aead := bindAead_lawful
+  hkdf2_len := toyPrims_lawful.hkdf2_len
+  hkdfFile_len := toyPrims_lawful.hkdfFile_len
+
+def isOk : Except ε α → Bool
+  | .ok _ => true
+  | .error _ => false
+
+def msgOf : Except Noise.Err (Bytes × Bytes) → Bytes
+  | .ok v => v.1
+  | .error _ => []
+
+/-- the honest message of the examples: sender 5…5, recipient 1…1, ephemeral 2…2 (toy keys: public = private) -/
+def exMsg (P : Prims) : Except Noise.Err (Bytes × Bytes) :=
+  writeMessage P encPrologue (List.replicate 32 5) (List.replicate 32 5) (List.replicate 32 1)
+    (List.replicate 32 2) (List.replicate 32 2) (List.replicate 32 7)
+
+/-- hypotheses of `C05_wrong_recipient` are satisfiable, with the addressed key as reader (disjunct 1) … -/
+example : ∃ msg h out, exMsg bindPrims = .ok (msg, h) ∧
+    readMessage bindPrims encPrologue (List.replicate 32 1) (List.replicate 32 1) msg = .ok out := by
+  obtain ⟨d1, h1, h1'⟩ := (toy_dhAgree (List.replicate 32 5) (List.replicate 32 1) (List.replicate 32 2)).es
+  obtain ⟨d2, h2, h2'⟩ := (toy_dhAgree (List.replicate 32 5) (List.replicate 32 1) (List.replicate 32 2)).ss
+  have hw := writeMessage_ok_named bindPrims encPrologue (List.replicate 32 5) (List.replicate 32 5)
+    (List.replicate 32 1) (List.replicate 32 2) (List.replicate 32 2) (List.replicate 32 7) d1 d2 h1 h2
+  exact ⟨_, _, _, hw, readMessage_writeMessage bindPrims bindPrims_lawful encPrologue _ _ _ _ _ _ _ d1 d2 _ _
+    (List.length_replicate ..) (List.length_replicate ..) (by decide) h1 h2 h1' h2' hw⟩
+
+/-- … a different key pair (3…3) is *rejected* by the key/AD-binding toy AEAD … -/
+example : isOk (exMsg bindPrims) = true ∧
+    isOk (readMessage bindPrims encPrologue (List.replicate 32 1) (List.replicate 32 1) (msgOf (exMsg bindPrims))) = true ∧
+    isOk (readMessage bindPrims encPrologue (List.replicate 32 3) (List.replicate 32 3) (msgOf (exMsg bindPrims))) = false := by
+  decide +kernel
+
+/-- … whereas with the keyless toy AEAD of C01 the wrong recipient succeeds: disjunct 4 (cross-key / cross-AD open)
+    occurs, so it cannot be dropped from the statement. -/
+example : isOk (readMessage toyPrims encPrologue (List.replicate 32 3) (List.replicate 32 3) (msgOf (exMsg toyPrims))) = true := by
+  decide +kernel
+
+/-- hypotheses of `C05_mismatch` are satisfiable (honest sender: s' is the private key of S; disjunct 1) -/
+example : ∃ msg h d1 pl Srep hh,
+    (List.replicate 32 2 : Bytes).length = 32 ∧ (List.replicate 32 5 : Bytes).length = 32 ∧
+    bindPrims.dh (List.replicate 32 2) (List.replicate 32 1) = some d1 ∧
+    bindPrims.dh (List.replicate 32 1) (List.replicate 32 2) = some d1 ∧
+    exMsg bindPrims = .ok (msg, h) ∧
+    readMessage bindPrims encPrologue (List.replicate 32 1) (List.replicate 32 1) msg = .ok (pl, Srep, hh) := by
+  obtain ⟨d1, h1, h1'⟩ := (toy_dhAgree (List.replicate 32 5) (List.replicate 32 1) (List.replicate 32 2)).es
+  obtain ⟨d2, h2, h2'⟩ := (toy_dhAgree (List.replicate 32 5) (List.replicate 32 1) (List.replicate 32 2)).ss
+  have hw := writeMessage_ok_named bindPrims encPrologue (List.replicate 32 5) (List.replicate 32 5)
+    (List.replicate 32 1) (List.replicate 32 2) (List.replicate 32 2) (List.replicate 32 7) d1 d2 h1 h2
+  exact ⟨_, _, d1, _, _, _, List.length_replicate .., List.length_replicate .., h1, h1', hw,
+    readMessage_writeMessage bindPrims bindPrims_lawful encPrologue _ _ _ _ _ _ _ d1 d2 _ _
+      (List.length_replicate ..) (List.length_replicate ..) (by decide) h1 h2 h1' h2' hw⟩
+
+/-- a sender holding 6…6 but claiming 5…5 is rejected by the honest recipient under the key-binding toy AEAD
+    (the DH results differ, so k2' ≠ k2 and the payload field does not open) … -/
+example : isOk (readMessage bindPrims encPrologue (List.replicate 32 1) (List.replicate 32 1)
+    (msgOf (writeMessage bindPrims encPrologue (List.replicate 32 6) (List.replicate 32 5) (List.replicate 32 1)
+      (List.replicate 32 2) (List.replicate 32 2) (List.replicate 32 7)))) = false := by decide +kernel
+/-- … and accepted under the keyless toy AEAD of C01: disjunct 3 (cross-key open) occurs. -/
+example : isOk (readMessage toyPrims encPrologue (List.replicate 32 1) (List.replicate 32 1)
+    (msgOf (writeMessage toyPrims encPrologue (List.replicate 32 6) (List.replicate 32 5) (List.replicate 32 1)
+      (List.replicate 32 2) (List.replicate 32 2) (List.replicate 32 7)))) = true := by decide +kernel
+
 end Kestrel
